@@ -52,8 +52,11 @@ except KeyError:
 def _load_seeds_from_file_object(fh: 'BinaryIO'):
     seed_count = readle(fh.read(4))
     fh.seek(0x10)
-    for _ in range(seed_count):
+    for n in range(seed_count):
         entry = fh.read(0x20)
+        if len(entry) != 0x20:
+            # the count field is not to be trusted: without this, a 4-byte file can ask for 2**32 iterations
+            raise InvalidSeedError(f'seeddb ends after {n} of {seed_count} entries')
         title_id = readle(entry[0:8])
         _seeds[title_id] = entry[0x8:0x18]
 
